@@ -68,6 +68,22 @@ def crypt_cases(seed, n, flavour):
             else:
                 case["s"] = None
         cases.append(case)
+    # every salt length around the SHA-256 / SHA-1 block boundaries for the methods whose salt is unbounded
+    # or long ($7$ raw salt, $y$/$gy$ decoded salt up to 64 bytes, $sha1$ up to 64 characters)
+    for n_ in list(range(48, 66)) + list(range(112, 130)) + [183, 247]:
+        sl = (b"SaltChars./0123456789" * 13)[:n_]
+        fixed = [("scrypt", b"$7$5/..../...." + sl)]
+        if n_ <= 64:
+            raw = bytes((i * 37 + n_) & 0xFF for i in range(n_))
+            fixed += [("yescrypt", b"$y$j5.$" + gen.yes_encode64(raw)), ("yescrypt", b"$y$.5/$" + gen.yes_encode64(raw)),
+                      ("gost_yescrypt", b"$gy$j5.$" + gen.yes_encode64(raw)), ("sha1crypt", b"$sha1$20$" + sl)]
+        for m, s in fixed:
+            rng = rt.rng_for(seed, PID, flavour, "saltlen", n_, m)
+            cases.append({"k": "crypt", "entry": rng.choice(["crypt_rn", "crypt_r", "crypt_ra"]), "p": gen.gen_phrase(rng, rng.choice([3, 20, 70])),
+                          "s": s, "m": m, "lab": "saltlen%d" % (n_ % 64), "align": rng.randrange(16), "fill": rng.choice("zfr"),
+                          "seed": rng.getrandbits(30), "mode": "s", "size": "="})
+            if cases[-1]["entry"] == "crypt_ra":
+                cases[-1]["ra"] = (-1, 0)
     return cases, skipped
 
 
@@ -404,8 +420,25 @@ def run(tier):
             cs.append({"k": "checksalt", "s": gen_setting(rng)[1], "m": "checksalt"})
         rng.shuffle(cs)
         work += [(fl, ch) for ch in pool.chunks(cs, 50)]
-    for acc in pool.pmap(do_chunk, work):
-        run_.merge(acc)
+    # a C library without explicit_bzero & co.: the library's own util-xbzero.c is compiled in and every wipe
+    # (objects at alignments 0..15, heap blocks, stack buffers) goes through it, under ASan + UBSan
+    from . import C19
+    import shutil
+    none = {"HAVE_EXPLICIT_BZERO": None, "HAVE_MEMSET_S": None, "HAVE_EXPLICIT_MEMSET": None, "HAVE_MEMSET_EXPLICIT": None}
+    name, en, own_exe, err, _ = C19.build_config(("c04-own-bzero-asan", list(gen.METHODS), none, build.FLAVOURS["asan"][1]))
+    if own_exe is None:
+        run_.acc.inconc("ASan build with the library's own explicit_bzero failed: " + err[-300:])
+    else:
+        rt.PATHS["vw-ownbz-asan"] = own_exe
+        cs, sk = crypt_cases(run_.seed + 17, na // 5, "ownbz-asan")
+        cs += gensalt_cases(run_.seed + 17, ng // 10, "ownbz-asan")
+        work += [("ownbz-asan", ch) for ch in pool.chunks(cs, 50)]
+    try:
+        for acc in pool.pmap(do_chunk, work):
+            run_.merge(acc)
+    finally:
+        if own_exe:
+            shutil.rmtree(os.path.dirname(own_exe), ignore_errors=True)
     if tier == "thorough":
         memcheck_sample(run_, run_.seed, 3000)
     fuzz_stage(run_, tier)
